@@ -181,14 +181,14 @@ def _quat(c, s):
     return Quaternion(axis=[0.0, 0.0, 1.0], radians=math.atan2(float(s), float(c)))
 
 
-def mk_obj(B):
+def mk_obj(B, frame="base_link"):
     from perception_eval.common.label import AutowareLabel, Label
     from perception_eval.common.object import DynamicObject
     from perception_eval.common.schema import FrameID
     from perception_eval.common.shape import Shape, ShapeType
 
     return DynamicObject(
-        unix_time=100, frame_id=FrameID.BASE_LINK,
+        unix_time=100, frame_id=FrameID.BASE_LINK if frame == "base_link" else FrameID.MAP,
         position=(float(B["x"]), float(B["y"]), float(B["z"])), orientation=_quat(B["c"], B["s"]),
         shape=Shape(ShapeType.BOUNDING_BOX, (float(B["w"]), float(B["l"]), float(B["h"]))),
         velocity=(0.0, 0.0, 0.0), semantic_score=0.5, semantic_label=Label(AutowareLabel.CAR, "car", []))
@@ -208,17 +208,26 @@ def _idx(points, p):
     return hits[0] if len(hits) == 1 else -1
 
 
-def scores3d(e, g):
+def ego_transforms(m):
+    """the motion m read as the ego pose: TransformDict with the ego -> map transform"""
+    from perception_eval.common.schema import FrameID
+    from perception_eval.common.transform import HomogeneousMatrix, TransformDict
+
+    c, s, tx, ty, tz = motion(m)
+    return TransformDict(HomogeneousMatrix((float(tx), float(ty), float(tz)), _quat(c, s), src=FrameID.BASE_LINK, dst=FrameID.MAP))
+
+
+def scores3d(e, g, transforms=None):
     from perception_eval.common.point import polygon_to_list
     from perception_eval.evaluation.matching.object_matching import (CenterDistanceMatching, IOU2dMatching,
                                                                      IOU3dMatching, PlaneDistanceMatching)
 
-    pm = PlaneDistanceMatching(e, g)
+    pm = PlaneDistanceMatching(e, g, transforms)
     gc = polygon_to_list(g.get_footprint())
     ec = polygon_to_list(e.get_footprint())
     return {
-        "cd": float(CenterDistanceMatching(e, g).value), "pd": float(pm.value),
-        "i2": float(IOU2dMatching(e, g).value), "i3": float(IOU3dMatching(e, g).value),
+        "cd": float(CenterDistanceMatching(e, g, transforms).value), "pd": float(pm.value),
+        "i2": float(IOU2dMatching(e, g, transforms).value), "i3": float(IOU3dMatching(e, g, transforms).value),
         "gl": _idx(gc, pm.ground_truth_nn_plane[0]), "gr": _idx(gc, pm.ground_truth_nn_plane[1]),
         "el": _idx(ec, pm.estimated_nn_plane[0]), "er": _idx(ec, pm.estimated_nn_plane[1]),
     }
@@ -446,6 +455,12 @@ class Box3dCorr(Corr):
         obs["sw"] = {k: sw[k] for k in ("cd", "i2", "i3")}
         Em, Gm = moved(case["m"], E), moved(case["m"], G)
         obs["mv"] = scores3d(mk_obj(Em), mk_obj(Gm))
+        # the SAME physical pair (E, G in the ego frame) rendered in the MAP frame through the ego pose m, with the frame's transforms:
+        # the ground truth's nearest side must still be the one nearest to the EGO (object_matching.py: corners transformed back)
+        # (skipped when the 2nd and 3rd nearest ground-truth corners are tied or nearly tied in the ego frame: the distances recovered
+        # through the transform carry rounding noise, so the choice of the side is not determined on floats)
+        _, tie23, near, _ = plane_candidates(E, G)
+        obs["map"] = None if (tie23 or near) else scores3d(mk_obj(Em, "map"), mk_obj(Gm, "map"), ego_transforms(case["m"]))
         return obs
 
     # -- model ----------------------------------------------------------------------------------
@@ -475,6 +490,9 @@ class Box3dCorr(Corr):
 
         parts = [chk("e", "g", obs, self._ordered(E, G)),
                  chk("(move_box m e)", "(move_box m g)", obs["mv"], self._ordered(Em, Gm)),
+                 # map rendering of (e, g) with transforms = the ego-frame scores of (e, g) (C07_plane_distance_invariant); left/right is
+                 # decided in map coordinates by the code, so the reported side is compared as a set
+                 chk("e", "g", obs["map"], False) if obs["map"] is not None else "true",
                  f"check_swapped e g {qlit(obs['sw']['cd'])} {qlit(obs['sw']['i2'])} {qlit(obs['sw']['i3'])}"]
         if E["s"] == 0 and G["s"] == 0 and E["c"] == 1 and G["c"] == 1:
             parts.append("check_aa_closed_form e g")
@@ -549,7 +567,9 @@ class Box3dCorr(Corr):
     def oracle(self, case, obs):
         E, G = params(case["e"]), params(case["g"])
         Em, Gm = moved(case["m"], E), moved(case["m"], G)
-        r = self._pair_oracle(E, G, obs, "pair") or self._pair_oracle(Em, Gm, obs["mv"], "moved pair")
+        r = (self._pair_oracle(E, G, obs, "pair") or self._pair_oracle(Em, Gm, obs["mv"], "moved pair")
+             or (self._pair_oracle(E, G, obs["map"], "pair rendered in the map frame (ego pose = the motion, transforms supplied)")
+                 if obs["map"] is not None else None))
         if r:
             return r
         # symmetry in the arguments
@@ -572,11 +592,12 @@ class Box3dCorr(Corr):
     def distribution(self, cases, obs):
         d = {"tags": {}, "rotated_pairs": 0, "axis_aligned_pairs": 0, "iou2_zero": 0, "iou2_between": 0, "iou2_one": 0,
              "iou3_zero_iou2_pos": 0, "exact_tie_2nd_3rd": 0, "tie_resolved_like_stable_sort": 0, "pure_rotation_motions": 0,
-             "max_size_ratio": 0.0, "lr_compared_ordered": 0}
+             "max_size_ratio": 0.0, "lr_compared_ordered": 0, "map_frame_renderings": 0}
         for c, o in zip(cases, obs):
             if "__harness_exception__" in o:
                 continue
             d["tags"][c["tag"]] = d["tags"].get(c["tag"], 0) + 1
+            d["map_frame_renderings"] += o.get("map") is not None
             E, G = params(c["e"]), params(c["g"])
             aa = E["s"] == 0 and G["s"] == 0
             d["axis_aligned_pairs" if aa else "rotated_pairs"] += 1
